@@ -261,7 +261,10 @@ class ProblemKind(up.AnyBaseClass, metaclass=ProblemKindMeta):
         return False
 
     def __hash__(self) -> int:
-        return sum(map(hash, self._features))
+        # must agree with __eq__, which ignores the features that are not valid
+        # (e.g. deprecated) in this kind's version
+        valid_features = get_valid_features(self.version)
+        return sum(hash(f) for f in self._features if f in valid_features)
 
     def __le__(self, oth: object):
         if not isinstance(oth, ProblemKind):
@@ -270,8 +273,9 @@ class ProblemKind(up.AnyBaseClass, metaclass=ProblemKindMeta):
             self._features, oth._features, self.version, oth.version
         )
         valid_version_features = get_valid_features(version)
-        self_feat.intersection_update(valid_version_features)
-        oth_feat.intersection_update(valid_version_features)
+        # equalize_versions may return the operands' own sets: never update in place
+        self_feat = self_feat.intersection(valid_version_features)
+        oth_feat = oth_feat.intersection(valid_version_features)
         return self_feat.issubset(oth_feat)
 
     def clone(self) -> "ProblemKind":
